@@ -165,6 +165,8 @@ def run_unit(args):
     decl = re.search(r"^//@properties[ \t]+(.+)$", open(os.path.join(VERIF, "contracts", name + ".rs")).read(), re.M)
     if decl:
         res["tags"] = sorted(set(decl.group(1).split()))
+    opm = re.search(r"^//@op[ \t]+(\w+)", open(os.path.join(VERIF, "contracts", name + ".rs")).read(), re.M)
+    res["op"] = opm.group(1) if opm else name
     try:
         woven, meta = weave_mod.weave(name, cfg)
     except weave_mod.StructuralViolation as e:
@@ -430,7 +432,7 @@ def get_results(tier):
 # ------------------------------------------------------------------ replay against the real crate
 REPLAY = os.path.join(BUILD, "replay-target", "release", "replay")
 SCENARIOS = {"take": ["take1", "take2", "take0", "take2L"], "map": ["map", "mapL"], "filter": ["filter"], "scan": ["scan"], "skip": ["skip1"], "from_iter": ["from_iter"],
-             "concat": ["concat2", "concat3"], "concat0": ["concat0"], "flatten": ["flatten"], "merge": ["merge2", "merge3", "merge2X"], "merge_L": ["merge2L"],
+             "concat": ["concat2", "concat3"], "concat0": ["concat0"], "flatten": ["flatten"], "merge": ["merge2", "merge3", "merge2X", "merge2L"], "merge_L": ["merge2L", "merge2"],
              "combine1": ["combine2"], "combine2": ["combine2", "combine2X"], "combine3": ["combine2", "combine2X"], "share": ["share2", "share3"]}
 # scenarios in which the puppet sources are pullable (one answer per Pull) and the sink pulls only with none outstanding
 PULL_SCENARIOS = {"take": ["take2P"], "map": ["mapP"], "filter": ["filterP"], "scan": ["scanP"], "skip": ["skip1P"], "from_iter": ["from_iterP"], "concat": ["concat2P", "concat3P"], "flatten": ["flattenP"]}
@@ -520,12 +522,8 @@ def replay_search(template, pid, secs=900):
             for x in f.get("excludes", [f["replay"]["expect"]]):
                 excl += ["--exclude", x]
     scs = list(SCENARIOS.get(template, []))
-    if template == "merge_L" and pid not in ("C01", "C17"):
-        scs = []   # with late greeters everything but the greeting itself reproduces finding F5
     if pid in ("C14", "C06", "C15", "C09", "C11", "C07"):
         scs += PULL_SCENARIOS.get(template, [])
-    if template == "merge" and pid == "C01":
-        scs.append("merge2L")   # late greeters are in C01's quantifier; for the other properties they only reproduce finding F5
     for sc in scs:
         try:
             p = subprocess.run([REPLAY, "search", sc, "--property", pid, "--len", "10", "--budget", "1500000"] + excl, capture_output=True, text=True, timeout=secs)
@@ -756,7 +754,9 @@ def main():
         # property in that operator's scenarios.  Only a replayed failing history is reported.
         findings = load_findings().get("findings", [])
         suspects = []
-        for u in relevant:
+        # .. or in another unit of the same operator (a profile that does not itself carry this property)
+        ops = {u.get("op") for u in relevant}
+        for u in [u for u in res["units"] if u in relevant or (u.get("op") in ops and "_T" not in u["template"])]:
             if u["status"] != "failed":
                 continue
             unlisted = [e for e in u["errors"] if e.get("kind") == "failed" and not any(finding_matches(f, u, dict(e, property=pp)) for f in findings for pp in (e.get("properties") or [e.get("property")]))]
@@ -767,7 +767,7 @@ def main():
             if cex:
                 os.makedirs(os.path.join(EVID, "replay"), exist_ok=True)
                 path = os.path.join(EVID, "replay", f"{a.property}-{t}.cross-attributed.json")
-                other = sorted({(e.get("property"), e.get("clause")) for u in relevant if u["template"] == t for e in u["errors"] if e.get("kind") == "failed"})[:6]
+                other = sorted({(e.get("property"), e.get("clause")) for u in res["units"] if u["template"] == t for e in u["errors"] if e.get("kind") == "failed"})[:6]
                 json.dump({"property": a.property, "obligation": f"{t}: obligations failed under other tags {other}; this property's violation is shown by the replayed history",
                            "failing_input": {"scenario": cex["scenario"], "tape": cex["tape"], "violations": cex["violations"], "history": cex["history"],
                                              "replay_cmd": cex.get("replay_cmd") or f"{REPLAY} run {cex['scenario']} '{json.dumps(cex['tape'])}'"}}, open(path, "w"), indent=1)
